@@ -695,4 +695,6 @@ extend('C11', 'Round 8: MxRecord.get reaches its permanent "no records" '
        'that are not expired.')
 extend('C17', 'Round 8: recv_reply raises BadReply only where a pattern '
        'ending in LF has matched on the path (or in the decode arm): no '
-       'verdict on the part of a line that has arrived so far.')
+       'verdict on the part of a line that has arrived so far; send_reply '
+       'appends the terminator on every path before cutting the text into '
+       'lines.')
